@@ -30,6 +30,8 @@ def plan(prop, tier, seed):
         jobs += _hist(prop, S(n_long, 5000), nops=nops, alpha="long")
         jobs += _hist(prop, S(n_short // 3, 9000), nops=nops, alpha="tiny")
         jobs += _exh(prop, 2 if q else 3)
+    if prop == "C04":
+        jobs += _hist(prop, S(n_short, 12000), nops=22, mode="rules", kinds=["page", "page", "links", "batch", "pages", "create", "@addp", "@rmp", "@move", "@del", "rule"])
     if prop in ("C01", "C02", "C19"):
         step = 12 if q else 4
         jobs += [dict(kind="lengths", prop=prop, seed=0, lo=a, hi=min(a + step, 232)) for a in range(1, 232, step)][:: (3 if q else 1)]
